@@ -120,7 +120,25 @@ fn st_of(i: u8) -> State {
 pub fn r_run(scn: &Scn) -> Option<(Machine, usize)> {
     let parsed = AsmParser::parse(&scn.program).ok()?;
     let bytecode = Translator::compile(&parsed);
-    let mut m = Machine::new_with_program(mconfig(scn), bytecode);
+    // "creating a machine with that program and configuration": built here through the public
+    // setters one by one, in an order of the harness's own (not through MachineConfig, whose
+    // application inside the library is part of what is checked)
+    let c = mconfig(scn);
+    let mut m = Machine::new(MachineConfig::default());
+    m.load(bytecode);
+    m.set_universal_input_output3(c.universal_input_output3);
+    m.set_analog_input2(c.analog_input2);
+    m.set_jumper2(c.jumper2);
+    m.set_input_ff(c.input_ff);
+    m.set_temp(c.temp);
+    m.set_input_fe(c.input_fe);
+    m.set_universal_input_output1(c.universal_input_output1);
+    m.set_digital_input1(c.digital_input1);
+    m.set_jumper1(c.jumper1);
+    m.set_input_fd(c.input_fd);
+    m.set_analog_input1(c.analog_input1);
+    m.set_universal_input_output2(c.universal_input_output2);
+    m.set_input_fc(c.input_fc);
     let mut i = 0usize;
     while i < scn.cycles as usize {
         if scn.interrupts.iter().any(|c| *c as usize == i) {
@@ -705,7 +723,7 @@ impl Check for C12 {
     }
     fn assumptions(&self) -> Vec<String> {
         vec![
-            "R-RUN is the loop spelled out in the property statement, executed over a second real Machine (the machine's own correctness is C01's business); parser and translator are real components here".into(),
+            "R-RUN is the loop spelled out in the property statement, executed over a second real Machine that is built with Machine::new + load + the public setters in the harness's own order, not through MachineConfig (the machine's own correctness is C01's business); parser and translator are real components here".into(),
             "argv that structopt itself rejects is only checked for 'no run report and non-zero exit'".into(),
             "programs come from the subset on which parse -> compile -> load is total (C06 is not claimed)".into(),
         ]
